@@ -392,6 +392,16 @@ class CFG:
                             extra = [(t, pol) for t, pol in decompose(x, e.polarity) if (ast.dump(t), pol) not in have]
                     cache[i] = base + extra
                 facts.extend(cache[i])
+            elif e.kind == "stmt" and isinstance(e.ast, ast.Expr) and isinstance(e.ast.value, ast.Call) and e is not node:
+                # a dominating call of a checking helper that returns normally only under certain conditions
+                # (`_check_count(len(a), len(b))` raising when they differ) establishes those conditions
+                if i not in cache:
+                    cache[i] = _facts_after_call(e.ast.value)
+                rd = self._rd()
+                for t, pol in cache[i]:
+                    names = {y.id for y in ast.walk(t) if isinstance(y, ast.Name)}
+                    if all(rd.defs_reaching(e, nm) == rd.defs_reaching(node, nm) for nm in names):
+                        facts.append((t, pol))
         return facts
 
     # ------------------------------------------------------------------ expression expansion
@@ -479,7 +489,10 @@ class CFG:
                 changed[0] = True
                 return ast.copy_location(S().visit(_clone(ret)), c)
 
-        new = T().visit(_clone(expr))
+        work = _clone(expr)
+        _set_parents(work)
+        work._parent = getattr(expr, "_parent", None)  # lexical lookups of helpers climb from here
+        new = T().visit(work)
         if not changed[0]:
             return expr
         ast.fix_missing_locations(new)
@@ -652,15 +665,109 @@ def _callee_never_returns(call):
     return _block_never_returns(fdef.body)
 
 
+_HELPER_FACTS = {}
+
+
+def _normal_exit_facts(fdef, depth=0):
+    """facts over the helper's own parameters that hold at every normal exit of fdef (the helper raises otherwise)"""
+    key = id(fdef)
+    if key in _HELPER_FACTS:
+        return _HELPER_FACTS[key]
+    _HELPER_FACTS[key] = []  # recursion guard
+    if depth > 2 or any(isinstance(x, (ast.Yield, ast.YieldFrom)) for x in ast.walk(fdef)):
+        return []
+    try:
+        g = CFG(fdef)
+    except Exception:
+        return []
+    params = {a.arg for a in fdef.args.posonlyargs + fdef.args.args + fdef.args.kwonlyargs}
+    common = None
+    for e in g.exit.pred:
+        fs = g.guards(e)
+        if e.kind == "edge" and e.test is not None:
+            fs = fs + decompose(e.test, e.polarity)
+            x = g.expand(e.test, e.pred[0] if e.pred else e)
+            if x is not e.test:
+                fs = fs + decompose(x, e.polarity)
+        cur = {}
+        for t, pol in fs:
+            names = {y.id for y in ast.walk(t) if isinstance(y, ast.Name) and isinstance(y.ctx, ast.Load)}
+            free = names - params - {"len", "isinstance", "any", "all", "int", "bool", "None", "True", "False"}
+            if names & params and not free:
+                cur[(ast.dump(t), pol)] = (t, pol)
+        common = cur if common is None else {k: v for k, v in common.items() if k in cur}
+    out = list((common or {}).values())
+    _HELPER_FACTS[key] = out
+    return out
+
+
+def _facts_after_call(call):
+    fdef = _lookup_def(call)
+    if fdef is None or fdef.decorator_list or fdef.args.vararg or fdef.args.kwarg:
+        return []
+    if any(isinstance(a, ast.Starred) for a in call.args) or any(k.arg is None for k in call.keywords):
+        return []
+    facts = _normal_exit_facts(fdef)
+    if not facts:
+        return []
+    params = [a.arg for a in fdef.args.posonlyargs + fdef.args.args]
+    mapping = {}
+    if params and params[0] in ("self", "cls") and isinstance(call.func, ast.Attribute):
+        mapping[params[0]] = call.func.value
+        params = params[1:]
+    for i, a in enumerate(call.args):
+        if i < len(params):
+            mapping[params[i]] = a
+    for k in call.keywords:
+        mapping[k.arg] = k.value
+    out = []
+
+    class S(ast.NodeTransformer):
+        def visit_Name(self, n):
+            if isinstance(n.ctx, ast.Load) and n.id in mapping:
+                return _clone(mapping[n.id])
+            return n
+
+    for t, pol in facts:
+        names = {y.id for y in ast.walk(t) if isinstance(y, ast.Name)} & set(a.arg for a in fdef.args.posonlyargs + fdef.args.args + fdef.args.kwonlyargs)
+        if not names <= set(mapping):
+            continue
+        new = S().visit(_clone(t))
+        ast.fix_missing_locations(new)
+        _set_parents(new)
+        new._parent = getattr(call, "_parent", None)
+        out.append((new, pol))
+    return out
+
+
 def _one_line_body(call):
-    """(FunctionDef, returned expression) when the call denotes a helper whose body is `return <expr>`"""
+    """(FunctionDef, returned expression) when the call denotes a straight-line helper: optional single-name
+    assignments of pure expressions followed by `return <expr>`; the locals are written out in the returned expression"""
     fdef = _lookup_def(call)
     if fdef is None or fdef.decorator_list:
         return None
     body = [st for st in fdef.body if not (isinstance(st, ast.Expr) and isinstance(st.value, ast.Constant))]
-    if len(body) == 1 and isinstance(body[0], ast.Return) and body[0].value is not None:
+    if not body or not isinstance(body[-1], ast.Return) or body[-1].value is None:
+        return None
+    subst = {}
+
+    class S(ast.NodeTransformer):
+        def visit_Name(self, n):
+            if isinstance(n.ctx, ast.Load) and n.id in subst:
+                return _clone(subst[n.id])
+            return n
+
+    for st in body[:-1]:
+        if not (isinstance(st, ast.Assign) and len(st.targets) == 1 and isinstance(st.targets[0], ast.Name)):
+            return None
+        if any(isinstance(x, (ast.Await, ast.Yield, ast.YieldFrom, ast.NamedExpr, ast.Lambda)) for x in ast.walk(st.value)):
+            return None
+        subst[st.targets[0].id] = S().visit(_clone(st.value))
+    if len(body) == 1:
         return fdef, body[0].value
-    return None
+    ret = S().visit(_clone(body[-1].value))
+    ast.fix_missing_locations(ret)
+    return fdef, ret
 
 
 # --------------------------------------------------------------------------------------
